@@ -1,16 +1,23 @@
 // C11 conformance driver for tbox::main::Module trees.
 //   driver script <scripts.jsonl> <out.ndjson>
-//        one JSON object per line: {"p":{"n":N,"parent":[..],"req":[..],"iok":[..],"sok":[..]},"named":[..],"c":["initialize",..]}
+//        one JSON object per line: {"p":{"n":N,"parent":[..],"req":[..],"iok":[[..],..],"sok":[[..],..]},"named":[..],
+//                                   "wrap":bool,"c":["initialize",..]}
 //        calls: initialize | start | stop | cleanup | destroy | main
 //   driver random <seed> <nexec> <maxn> <maxdepth> <maxcalls> <out.ndjson>
 // A program is data: modules 1..N numbered in pre-order (parent[1] = 0, children in registration order),
-// required flags, outcome of every onInit / onStart, and how each module is named (0 unnamed, 1 named by its
-// constructor, 2 renamed by addAs()).  The driver builds REAL tbox::main::Module subclasses (probes that only log
+// required flags, per module the result of the k-th call of its onInit / onStart (non-empty list, the last
+// element repeats - so a module can fail in one life cycle and succeed in the next), and how each module is
+// named (0 unnamed, 1 named by its constructor, 2 renamed by addAs()).  "wrap": the calls are made on a plain
+// Module("") that owns the program's tree (as `apps` in Main() owns the user's modules); such a tree may be
+// destroyed in ANY state (running, initialised, ...): ~Module() of the plain root must then stop and clean up
+// everything below it through the overrides.  Without "wrap" the calls are made on module 1 itself, and the
+// script must call cleanup() before destroy (C++ cannot deliver module 1's own hooks from its destructor).  The driver builds REAL tbox::main::Module subclasses (probes that only log
 // their hooks), makes the root calls, destroys the tree and records one ndjson line per root call with every hook
 // event that reached a user override during that call.  "main" performs the call sequence of tbox::main::Main()
 // (run_in_frontend.cpp / run_in_backend.cpp) on a plain Module("") root that owns the program's tree.
 // The trace is validated by TLC against spec/ModuleTree/Trace_ModuleTree.tla; this program decides nothing.
 #include <vh.h>
+#include <algorithm>
 #include <fstream>
 #include <memory>
 #include <nlohmann/json.hpp>
@@ -41,13 +48,16 @@ void hook(const char *h, int m, bool r) {
     g_hooks.push_back(std::string("{\"h\":\"") + h + "\",\"m\":" + std::to_string(m) + ",\"r\":" + (r ? "true" : "false") + "}");
 }
 
+typedef std::vector<bool> Plan;          // result of the k-th call; the last element repeats
+bool outcome(const Plan &p, size_t &calls) { bool r = p[std::min(calls, p.size() - 1)]; ++calls; return r; }
+
 struct Probe : public Module {
-    int id; bool iok, sok;
-    Probe(const std::string &name, int id_, bool iok_, bool sok_) : Module(name, g_ctx), id(id_), iok(iok_), sok(sok_) {}
+    int id; Plan iok, sok; size_t ni = 0, ns = 0;
+    Probe(const std::string &name, int id_, const Plan &iok_, const Plan &sok_) : Module(name, g_ctx), id(id_), iok(iok_), sok(sok_) {}
   protected:
     void onFillDefaultConfig(Json &js) override { js["cfg" + std::to_string(id)] = id; }
-    bool onInit(const Json &) override { hook("I", id, iok); return iok; }
-    bool onStart() override { hook("S", id, sok); return sok; }
+    bool onInit(const Json &) override { bool r = outcome(iok, ni); hook("I", id, r); return r; }
+    bool onStart() override { bool r = outcome(sok, ns); hook("S", id, r); return r; }
     void onStop() override { hook("T", id, true); }
     void onCleanup() override { hook("C", id, true); }
 };
@@ -55,12 +65,23 @@ struct Probe : public Module {
 struct Prog {
     int n = 0;
     std::vector<int> parent, named;       // 1-based
-    std::vector<bool> req, iok, sok;
+    std::vector<bool> req;
+    std::vector<Plan> iok, sok;
 };
 
 std::string jbools(const std::vector<bool> &v) {
     std::string s = "[";
     for (size_t i = 1; i < v.size(); ++i) { if (i > 1) s += ','; s += v[i] ? "true" : "false"; }
+    return s + "]";
+}
+std::string jplans(const std::vector<Plan> &v) {
+    std::string s = "[";
+    for (size_t i = 1; i < v.size(); ++i) {
+        if (i > 1) s += ',';
+        s += '[';
+        for (size_t k = 0; k < v[i].size(); ++k) { if (k) s += ','; s += v[i][k] ? "true" : "false"; }
+        s += ']';
+    }
     return s + "]";
 }
 std::string jints(const std::vector<int> &v) {
@@ -72,8 +93,11 @@ std::string jints(const std::vector<int> &v) {
 struct Run {
     Module *root = nullptr;     // the object the calls are made on (the program's module 1, or the plain wrapper in main mode)
     Json conf;
+    bool wrapped = false;
+    std::string last;           // previous root call
 
-    void build(const Prog &p, bool wrap) {
+    void build(const Prog &p, bool wrap, const char *mode) {
+        wrapped = wrap;
         std::vector<Module *> mod(p.n + 1, nullptr);
         for (int m = 1; m <= p.n; ++m) {
             std::string name = "m" + std::to_string(m);
@@ -91,8 +115,8 @@ struct Run {
         conf = Json::object();
         root->fillDefaultConfig(conf);          // as Main() does: creates the key of every named module
         vh::T().line("{\"e\":\"prog\",\"n\":" + std::to_string(p.n) + ",\"parent\":" + jints(p.parent) + ",\"req\":" + jbools(p.req) +
-                     ",\"iok\":" + jbools(p.iok) + ",\"sok\":" + jbools(p.sok) + ",\"named\":" + jints(p.named) +
-                     ",\"wrap\":" + (wrap ? "true" : "false") + "}");
+                     ",\"iok\":" + jplans(p.iok) + ",\"sok\":" + jplans(p.sok) + ",\"named\":" + jints(p.named) +
+                     ",\"wrap\":" + (wrap ? "true" : "false") + ",\"mode\":\"" + mode + "\"}");
     }
     void emit(const char *op, bool ret) {
         std::string s = std::string("{\"e\":\"call\",\"op\":\"") + op + "\",\"ret\":" + (ret ? "true" : "false") + ",\"hk\":[";
@@ -107,9 +131,13 @@ struct Run {
         else if (op == "start") ret = root->start();
         else if (op == "stop") root->stop();
         else if (op == "cleanup") root->cleanup();
-        else if (op == "destroy") { delete root; root = nullptr; }
+        else if (op == "destroy") {
+            if (!wrapped && last != "cleanup") { fprintf(stderr, "script destroys module 1 itself without cleanup()\n"); _exit(3); }
+            delete root; root = nullptr;
+        }
         else { fprintf(stderr, "unknown call %s\n", op.c_str()); _exit(3); }
         emit(op.c_str(), ret);
+        last = op;
         return ret;
     }
     // the sequencing of Main() / Start()+Stop() over `apps` (the context's own steps left out)
@@ -122,17 +150,18 @@ struct Run {
         call("destroy");                // `apps` goes out of scope
     }
     void finish() {
-        if (root) call("destroy");
+        if (root) { if (!wrapped) call("cleanup"); call("destroy"); }
         vh::T().line("{\"e\":\"Reset\"}");
     }
 };
 
-void exec(const Prog &p, const std::vector<std::string> &calls) {
+void exec(const Prog &p, const std::vector<std::string> &calls, bool wrap) {
     Run r;
-    bool wrap = calls.size() == 1 && calls[0] == "main";
+    bool is_main = calls.size() == 1 && calls[0] == "main";
+    wrap = wrap || is_main;
     g_hooks.clear();
-    r.build(p, wrap);
-    if (wrap) r.main_sequence();
+    r.build(p, wrap, is_main ? "main" : "script");
+    if (is_main) r.main_sequence();
     else for (auto &c : calls) r.call(c);
     r.finish();
 }
@@ -150,15 +179,21 @@ int main(int argc, char **argv) {
             if (line.empty()) continue;
             json j = json::parse(line);
             Prog p; p.n = j["p"]["n"].get<int>();
-            p.parent.assign(1, 0); p.named.assign(1, 0); p.req.assign(1, false); p.iok.assign(1, false); p.sok.assign(1, false);
+            p.parent.assign(1, 0); p.named.assign(1, 0); p.req.assign(1, false); p.iok.assign(1, Plan()); p.sok.assign(1, Plan());
+            auto plan = [](const json &x) {         // a single boolean or a non-empty list
+                Plan q;
+                if (x.is_boolean()) q.push_back(x.get<bool>()); else for (auto &b : x) q.push_back(b.get<bool>());
+                if (q.empty()) { fprintf(stderr, "empty outcome plan\n"); _exit(3); }
+                return q;
+            };
             for (int m = 0; m < p.n; ++m) {
                 p.parent.push_back(j["p"]["parent"][m].get<int>()); p.req.push_back(j["p"]["req"][m].get<bool>());
-                p.iok.push_back(j["p"]["iok"][m].get<bool>()); p.sok.push_back(j["p"]["sok"][m].get<bool>());
+                p.iok.push_back(plan(j["p"]["iok"][m])); p.sok.push_back(plan(j["p"]["sok"][m]));
                 p.named.push_back(j.contains("named") ? j["named"][m].get<int>() : 1);
             }
             std::vector<std::string> calls;
             for (auto &c : j["c"]) calls.push_back(c.get<std::string>());
-            exec(p, calls);
+            exec(p, calls, j.value("wrap", false));
         }
     } else if (mode == "random" && argc == 8) {
         vh::Rng rng(strtoull(argv[2], nullptr, 10));
@@ -169,7 +204,7 @@ int main(int argc, char **argv) {
             Prog p; p.n = (int)rng.range(1, maxn);
             std::vector<int> depth(p.n + 1, 1);
             p.parent.assign(p.n + 1, 0); p.named.assign(p.n + 1, 1);
-            p.req.assign(p.n + 1, true); p.iok.assign(p.n + 1, true); p.sok.assign(p.n + 1, true);
+            p.req.assign(p.n + 1, true); p.iok.assign(p.n + 1, Plan(1, true)); p.sok.assign(p.n + 1, Plan(1, true));
             int shape = (int)rng.below(3);      // 0: any, 1: deep, 2: wide
             for (int m = 2; m <= p.n; ++m) {
                 std::vector<int> chain;         // path root .. m-1, admissible parents keep the depth bound
@@ -184,7 +219,12 @@ int main(int argc, char **argv) {
             for (int m = 1; m <= p.n; ++m) {
                 p.req[m] = m == 1 || rng.chance(60);
                 int pct = fail == 0 ? 0 : fail == 1 ? 6 : 18;
-                if (fail != 3 || !p.req[m]) { p.iok[m] = !rng.chance(pct); p.sok[m] = !p.iok[m] || !rng.chance(pct); }
+                if (fail != 3 || !p.req[m]) {
+                    // results of the 1st, 2nd, 3rd.. call: a module may fail in one life cycle and succeed in another
+                    int len = rng.chance(50) ? 1 : (int)rng.range(2, 3);
+                    p.iok[m].clear(); p.sok[m].clear();
+                    for (int k = 0; k < len; ++k) { p.iok[m].push_back(!rng.chance(pct)); p.sok[m].push_back(!rng.chance(pct)); }
+                }
                 p.named[m] = (int)rng.below(3);
                 if (m > 1 && p.named[m] == 0) {       // add() refuses two children with the same (empty) name
                     if (has_unnamed[p.parent[m]]) p.named[m] = 1; else has_unnamed[p.parent[m]] = true;
@@ -195,7 +235,7 @@ int main(int argc, char **argv) {
             if (style == 0) calls.push_back("main");
             else if (style <= 5) {              // the documented order with noise
                 static const char *order[] = {"initialize", "start", "stop", "cleanup"};
-                int rounds = (int)rng.range(1, 2);
+                int rounds = (int)rng.range(1, 3);          // several life cycles of the same tree
                 for (int k = 0; k < rounds; ++k)
                     for (int i = 0; i < 4; ++i) {
                         if (rng.chance(12)) calls.push_back(ops[rng.below(4)]);
@@ -206,8 +246,17 @@ int main(int argc, char **argv) {
                 int k = (int)rng.range(0, maxcalls);
                 for (int i = 0; i < k; ++i) calls.push_back(ops[rng.below(4)]);
             }
-            if (style != 0) { calls.push_back("cleanup"); calls.push_back("destroy"); }
-            exec(p, calls);
+            bool wrap = style == 0 || rng.chance(50);
+            if (style != 0) {
+                // a wrapped tree may be destroyed in whatever state it is in; module 1 itself only after cleanup()
+                if (!wrap || rng.chance(40)) calls.push_back("cleanup");
+                else if (style <= 5 && rng.chance(50)) {       // cut the last life cycle short: destroy while running / initialised
+                    size_t cut = (size_t)rng.below(4);
+                    while (cut-- && !calls.empty()) calls.pop_back();
+                }
+                calls.push_back("destroy");
+            }
+            exec(p, calls, wrap);
         }
     } else return 3;
     vh::T().close();
